@@ -498,7 +498,7 @@ class Target(DataExchangeProtocol):
                 return
             if req is None:
                 return
-            if req.did == self.did:
+            if (req.did or None) == self.did:  # DID 0 is "no DID"
                 if type(req) in (DSL_REQ, RLS_REQ):
                     RES = DSL_RES if type(req) == DSL_REQ else RLS_RES
                     try:
@@ -591,7 +591,7 @@ class Target(DataExchangeProtocol):
             req = self.send_res_recv_req(res, deadline)
             if req is None:
                 return None
-            elif req.did != self.did:
+            elif (req.did or None) != self.did:  # DID 0 is "no DID"
                 log.debug("ignore non-matching device identifier")
                 res = None
             elif type(req) == DSL_REQ:
